@@ -2,7 +2,10 @@ package udpswarm
 
 import (
 	"context"
+	"errors"
 	"net"
+	"os"
+	"time"
 
 	"go.brendoncarroll.net/p2p"
 )
@@ -12,6 +15,9 @@ const (
 	IPv6MTU = 1280
 
 	TheoreticalMTU = (1 << 16) - 1
+
+	// receivePollInterval bounds how long Receive takes to notice that its context is done.
+	receivePollInterval = 100 * time.Millisecond
 )
 
 var _ p2p.Swarm[Addr] = &Swarm{}
@@ -55,8 +61,24 @@ func (s *Swarm) Tell(ctx context.Context, a Addr, data p2p.IOVec) error {
 
 func (s *Swarm) Receive(ctx context.Context, th func(p2p.Message[Addr])) error {
 	buf := [TheoreticalMTU]byte{}
-	n, remoteAddr, err := s.conn.ReadFromUDP(buf[:])
-	if err != nil {
+	var n int
+	var remoteAddr *net.UDPAddr
+	for {
+		// The socket cannot wait on a context, so wait in short slices and check the context in between.
+		if err := ctx.Err(); err != nil {
+			return err
+		}
+		if err := s.conn.SetReadDeadline(time.Now().Add(receivePollInterval)); err != nil {
+			return err
+		}
+		var err error
+		n, remoteAddr, err = s.conn.ReadFromUDP(buf[:])
+		if err == nil {
+			break
+		}
+		if errors.Is(err, os.ErrDeadlineExceeded) {
+			continue
+		}
 		return err
 	}
 	th(p2p.Message[Addr]{
